@@ -653,4 +653,38 @@ theorem skip_unobservable (P : Params) (hP : P.fixed = true) (st : PortSt Int) (
   simp only [hfirst, Bool.true_or, if_true]
   exact quiet_after_eval P hP tk0.env tk0.now (hpos tk0 (by simp)) st
 
+/-! ## Passes and the evaluation task as separate steps -/
+
+/-- A pass immediately followed by the evaluation task (nothing pending before): exactly `loopStep` with the skip
+rule — whatever the pending-evaluation shortcut is applied to. -/
+theorem pass_then_run_is_loopStep (P : Params) (g : Bool) (st : PortSt Int) (tk : Tick Int) :
+    (evStep P g (evStep P g { st := st, queue := [] } (.pass tk)) .run) = { st := loopStep P true st tk, queue := [] } := by
+  simp only [evStep, passStep, loopStep, List.isEmpty_nil, Bool.not_true, Bool.and_false, Bool.false_eq_true,
+    if_false, List.nil_append, Bool.true_and]
+  cases hA : hasAsap st.tree <;> cases hT : tk.trig <;> cases hP : effPaused P.fixed tk.now st.tree <;>
+    simp [runQueue]
+
+/-- One pass + evaluation task per tick. -/
+def runDrained (P : Params) (g : Bool) : PortSt Int → List (Tick Int) → List (Option Int)
+  | _, [] => []
+  | st, tk :: rest =>
+    let q := evStep P g (evStep P g { st := st, queue := [] } (.pass tk)) .run
+    q.st.value :: runDrained P g q.st rest
+
+theorem runDrained_eq_runLoop (P : Params) (g : Bool) (ticks : List (Tick Int)) :
+    ∀ st : PortSt Int, runDrained P g st ticks = runLoop P true st ticks := by
+  induction ticks with
+  | nil => intro st; rfl
+  | cons tk rest ih =>
+    intro st
+    simp only [runDrained, runLoop, pass_then_run_is_loopStep]
+    rw [ih]
+
+/-- The code's rule: a pass that sees a changed dependency (or a forced evaluation) ALWAYS queues an evaluation
+carrying the values of that pass, whatever is pending or paused. -/
+theorem trig_always_queues (P : Params) (q : QPort Int) (tk : Tick Int) (h : tk.trig = true) :
+    (passStep P false q tk).queue = q.queue ++ [(tk.now, tk.env)] ∧ (passStep P false q tk).st = q.st := by
+  simp only [passStep, h, Bool.not_true, Bool.false_eq_true, if_false, Bool.false_and]
+  cases hasAsap q.st.tree <;> simp
+
 end QtVerif.TimeFns
